@@ -5,6 +5,7 @@ import CprocVerif.Lemmas.PPFuel
 import CprocVerif.Lemmas.PPInv
 import CprocVerif.Lemmas.PPObjMain
 import CprocVerif.Lemmas.PPArgs
+import CprocVerif.Lemmas.PPArgsExec
 
 /-!
 # C12 — macro definition and expansion follow C11 6.10.3 on the implemented subset
@@ -368,6 +369,24 @@ example : (collect [pA, pV] 0 0 [] []
 example : errOf (collect [pA] 0 0 [] [] [num b!"1", tk .TCOMMA, tk .TRPAREN]) = some .tooManyArgs := by decide +kernel
 example : errOf (collect [pA, pA] 0 0 [] [] [num b!"1", tk .TRPAREN]) = some .notEnoughArgs := by decide +kernel
 example : errOf (collect [pA] 0 0 [] [] [tk .TLPAREN, num b!"1"]) = some .eofInArgs := by decide +kernel
+
+/-- **`expandfunc`, as executed by `exec`, is `collect`** — for an invocation whose tokens come
+straight from the scanner (empty context stack) and contain no new-line, `#`, end of file,
+scanner diagnostic or macro name: the same verdict (`Agrees`: accepted, or the same diagnostic),
+exactly the tokens up to `collect`'s `)` consumed, and for every parameter the argument `collect`
+cut out is stored — its tokens (identifiers painted) if the parameter is used plainly, its
+`stringize` string if it is used with `#` (`mkArg`).  With `split_args_correct` and
+`stringize_correct`: the stored arguments are the top-level-comma split of the reference and their
+6.10.3.2p2 spellings. -/
+theorem expandfunc_is_collect (m : Macro) (st : St) (hctx : st.ctx = [])
+    (hpl : ∀ x ∈ st.raw, PlainTok st.macros x) (hne : 0 < m.params.length) :
+    Agrees m.params m.name st (.expandfunc m) (collect m.params 0 0 [] [] st.raw) :=
+  expandfunc_collect m st hctx hpl hne
+
+def mF : Macro := { func := true, name := b!"F", params := [pA, pV] }
+def stF : St := { raw := [num b!"1", tk .TCOMMA, tk .TLPAREN, num b!"2", tk .TCOMMA, ident b!"y", tk .TRPAREN,
+                          tk .TRPAREN, ident b!"x"], macros := [mF] }
+example : stF.ctx = [] ∧ (∀ x ∈ stF.raw, PlainTok stF.macros x) ∧ 0 < mF.params.length := by decide +kernel
 
 /-! ## 8. Function-like macros: the full statement, and why it is false today
 
